@@ -14,7 +14,7 @@ import gen_toml as G
 
 PROP = "C09"
 COQ_PROPS = "Props/C09.v"
-THEOREMS = ["see Props/C09.v"]
+THEOREMS = ["Props/C09.v (10): on every statement sequence outside the undecided class U1 the parser state machine accepts exactly what the claims specification accepts and builds the same content; no panic; the verdict does not depend on how keys are spelled; the same for pair sequences inside inline tables (names in coverage.theorem_names)"]
 RULE = ("all statement sequences of length <= 3 (quick) / <= 4 (thorough) over 6 statement forms x 6 paths, random "
         "bare/quoted spelling; random longer sequences; non-trivial = sequence of >= 2 statements where a later statement "
         "touches a path prefix of an earlier one")
